@@ -360,7 +360,8 @@ class Router:
 
         # Calculate the differences in latitude and longitude
         dlat = lat2 - lat1
-        dlon = lon2 - lon1
+        # Longitude difference the short way round: an area may straddle the antimeridian
+        dlon = (lon2 - lon1 + math.pi) % (2 * math.pi) - math.pi
 
         # Calculate the distance along the y-axis (-longitude)
         y_distance = EARTH_RADIUS * dlon * math.cos((lat1 + lat2) / 2)
